@@ -33,7 +33,7 @@ def run(rep, tier):
     from props import ctrl_obl
     from engine import E2
     e = E2(rep, tier)
-    sizes = [(4, 4), (5, 3), (3, 5), (6, 2), (1, 6)] if tier == "quick" else [(4, 4), (5, 3), (3, 5), (6, 2), (1, 6), (5, 5), (8, 3), (3, 8), (6, 4)]
+    sizes = [(4, 4), (5, 5), (6, 2), (1, 6)] if tier == "quick" else [(4, 4), (5, 5), (6, 2), (1, 6), (8, 3), (3, 8), (6, 4), (4, 6)]
     rep.bounds["(len f, len g)_mir"] = [list(x) for x in sizes]
     ctrl_obl.c13_obligations(e, sizes, real=True)
     ctrl_obl.c13_obligations(e, [(2, 2)], real=False)
